@@ -1028,6 +1028,154 @@ def ek_helpers_rule(r, idx):
               "the predecessor table must start as None for every vertex (augmenting_path_for tests the sink's entry)")
 
 
+# ============================================ emptiness facts / key provenance (rules 9-11)
+_EMPTY_DISPLAYS = ("{}", "[]", "()", "set()", "dict()", "list()", "frozenset()")
+
+
+def empty_fact(op, l, r, names) -> bool:
+    """The canonical edge fact (op, l, r) says that one of `names` is empty / false."""
+    for x in names:
+        ln = "len(%s)" % x
+        if op == "false" and l in (x, ln):
+            return True
+        if op in ("==", "is") and (({l, r} == {ln, "0"}) or any({l, r} == {x, d} for d in _EMPTY_DISPLAYS)):
+            return True
+        if (op, l, r) in (("<", ln, "1"), ("<=", ln, "0")):
+            return True
+    return False
+
+
+def nonempty_fact(op, l, r, names) -> bool:
+    """The canonical edge fact (op, l, r) says that one of `names` is non-empty."""
+    for x in names:
+        ln = "len(%s)" % x
+        if op == "truth" and l in (x, ln):
+            return True
+        if op == "!=" and (({l, r} == {ln, "0"}) or any({l, r} == {x, d} for d in _EMPTY_DISPLAYS)):
+            return True
+        if (op, l, r) in (("<", "0", ln), ("<=", "1", ln)):
+            return True
+    return False
+
+
+def has_adders(fn, name) -> bool:
+    """Some call in fn may put further elements into the plain-name container `name`."""
+    for x in func_own_nodes(fn):
+        if isinstance(x, ast.Call) and isinstance(x.func, ast.Attribute) and isinstance(x.func.value, ast.Name) \
+                and x.func.value.id == name and x.func.attr in ("add", "update", "append", "extend", "insert",
+                                                                "setdefault", "appendleft"):
+            return True
+        if isinstance(x, (ast.Assign, ast.AugAssign)):
+            for t in (x.targets if isinstance(x, ast.Assign) else [x.target]):
+                if isinstance(t, ast.Subscript) and isinstance(t.value, ast.Name) and t.value.id == name:
+                    return True
+    return False
+
+
+def keys_of(fl, n, e, root, depth=6) -> bool:
+    """Expression e (evaluated at CFG node n) is a collection holding only keys of the dict parameter `root`:
+    root / root.keys() / sorted(root) / set([k for k in root]) / [k for k, v in root.items()] / a name copy of one
+    of these that nothing is added to / a difference or intersection of such a collection."""
+    e = unwrap(e)
+    base, view = unwrap_view(e)
+    if view in ("items", "values"):
+        return False
+    if view == "keys":
+        e = base
+        if not (isinstance(e, ast.Name) and e.id == root):
+            return False
+    if isinstance(e, ast.Name):
+        if e.id == root:
+            return fl.is_param(n, root)
+        dn, v = fl.unique_def(n, e.id)
+        if v is None or depth <= 0 or has_adders(fl.fn, e.id):
+            return False
+        return keys_of(fl, dn, v, root, depth - 1)
+    if isinstance(e, (ast.ListComp, ast.SetComp, ast.GeneratorExp)) and len(e.generators) == 1 and isinstance(e.elt, ast.Name):
+        g = e.generators[0]
+        if isinstance(g.target, ast.Name) and g.target.id == e.elt.id:
+            return keys_of(fl, n, g.iter, root, depth - 1)
+        b2, v2 = unwrap_view(g.iter)
+        if v2 == "items" and isinstance(g.target, ast.Tuple) and g.target.elts and isinstance(g.target.elts[0], ast.Name) \
+                and g.target.elts[0].id == e.elt.id:
+            return keys_of(fl, n, b2, root, depth - 1)
+        return False
+    if isinstance(e, ast.BinOp) and isinstance(e.op, (ast.Sub, ast.BitAnd)):
+        return keys_of(fl, n, e.left, root, depth - 1)
+    return False
+
+
+def loop_key(fn, fl, n, e, ok_iter):
+    """e is a plain name bound (at CFG node n) by an enclosing `for e in X` / `for e, _ in X.items()` whose
+    iterable satisfies ok_iter(head node, X).  Returns the ast.For or None."""
+    if not isinstance(e, ast.Name) or n.kind != "stmt":
+        return None
+    dn, _v = fl.unique_def(n, e.id)
+    if dn is None or dn.kind != "iter":
+        return None
+    for l in enclosing_for(fn, n.ast):
+        if l is not dn.ast:
+            continue
+        base, view = unwrap_view(l.iter)
+        t = l.target
+        if view == "items":
+            okt = isinstance(t, ast.Tuple) and t.elts and isinstance(t.elts[0], ast.Name) and t.elts[0].id == e.id
+        elif view in (None, "keys"):
+            okt = isinstance(t, ast.Name) and t.id == e.id
+        else:
+            okt = False
+        if okt and ok_iter(dn, base if view else l.iter):
+            return l
+    return None
+
+
+def set_elements(e):
+    """set([x]) / {x} / set((x,)) / frozenset([x]) -> [x]; None for another shape."""
+    if isinstance(e, ast.Set):
+        return list(e.elts)
+    if isinstance(e, ast.Call) and isinstance(e.func, ast.Name) and e.func.id in ("set", "frozenset") and len(e.args) == 1 \
+            and not e.keywords and isinstance(e.args[0], (ast.List, ast.Tuple, ast.Set)):
+        return list(e.args[0].elts)
+    return None
+
+
+def handler_records_shares(hm):
+    """A response handler `hm(self, res, tracker, ..)` records every share number of `res` under the tracker's server:
+    for s in res[.keys()]: <selector>.add_peer_with_share(<tracker>.get_serverid(), s).
+    True / False (no such call at all) / message (a call of another shape)."""
+    cfg = hm.cfg()
+    fl = Flow(hm)
+    params = first_positional_params(hm)
+    calls = [(n, c) for n in cfg.stmt_nodes() for c in node_calls(n) if call_tail(c) == "add_peer_with_share"]
+    if not calls or not params:
+        return False
+    RES = params[0]
+    for (n, c) in calls:
+        if len(c.args) != 2:
+            return "%s: add_peer_with_share is not given (server id, share number)" % hm.name
+        sid = fl.origin(n, c.args[0])
+        if not any(sid == "%s.get_serverid()" % p for p in params[1:]):
+            return "%s records the share under %s, not under the id of the tracker that answered" % (hm.name, sid)
+        lp = loop_key(hm, fl, n, c.args[1], lambda head, it: fl.origin(head, unwrap_view(unwrap(it))[0]) == RES)
+        if lp is None:
+            return "%s records %s, which is not a share number of the answer `%s`" % (hm.name, src(hm, c.args[1]), RES)
+        w = body_skips(cfg, iter_node(cfg, lp), lambda x, _n=n: x is _n)
+        if w:
+            return "%s can skip a share number of the answer" % hm.name
+        plain = Normaliser(Env(None, depth=0))
+
+        def failed(x, lab):
+            f = fact_on_edge(plain, x, lab)
+            return bool(f) and f[0] == "truth" and f[1].startswith("isinstance(%s, " % RES) and "Failure" in f[1]
+        if not find_path_avoiding(cfg, lambda x, _n=n: x is _n, gate_edge=failed):
+            return "%s records shares only when the answer is a Failure" % hm.name
+    return True
+
+
+def has_yield(n) -> bool:
+    return any(isinstance(x, (ast.Yield, ast.YieldFrom, ast.Await)) for e in node_exprs(n) for x in own_nodes(e))
+
+
 def run(ctx: Context):
     idx = ctx.idx
     reported = set()
@@ -1917,6 +2065,564 @@ def run(ctx: Context):
                   "saturated edges with capacity 1 and distinct rows; bfs enqueues a vertex only when WHITE, after "
                   "colouring it and recording its predecessor", expected=8) as r:
         ek_helpers_rule(r, idx)
+
+    # ------------------------------------------------------------------ 9
+    with ctx.rule("C07.9", "R3", "early exits: share_placement returns anything other than the full result only when there "
+                  "is no writable server; _servermap_flow_graph returns anything other than the graph it built only "
+                  "for an empty servermap / share set / server set", expected=2) as r:
+        sp_P = first_positional_params(sp)[0]
+        r.site(sp, None, "early exits of share_placement")
+        finals = [n for n in scfg.find(is_return) if isinstance(n.ast.value, ast.DictComp)]
+        if len(finals) != 1:
+            raise AnchorVanished("share_placement: final dict comprehension")
+        for o in scfg.find(is_return):
+            if o is finals[0]:
+                continue
+            for (t, w) in find_path_avoiding(scfg, lambda x, _o=o: x is _o,
+                                             gate_edge=fact_gate(None, lambda op, l, rr: empty_fact(op, l, rr, (sp_P,)))):
+                r.violation(sp, sp.loc(t.ast), "share_placement returns %s without having found `%s` empty: with at least one "
+                            "writable server every share number must get a server" % (src(sp, t.ast.value) if t.ast.value
+                                                                                      is not None else "None", sp_P), w)
+        fg = idx.func(HU + ":_servermap_flow_graph")
+        r.site(fg, None, "early exits of _servermap_flow_graph")
+        fg_params = tuple(first_positional_params(fg)[:3])
+        gname = returned_name(fg)
+        fgcfg = fg.cfg()
+        for o in fgcfg.find(is_return):
+            if isinstance(o.ast.value, ast.Name) and o.ast.value.id == gname:
+                continue
+            for (t, w) in find_path_avoiding(fgcfg, lambda x, _o=o: x is _o,
+                                             gate_edge=fact_gate(None, lambda op, l, rr: empty_fact(op, l, rr, fg_params))):
+                r.violation(fg, fg.loc(t.ast), "_servermap_flow_graph returns %s instead of the graph although none of %s was "
+                            "found empty: the phase matches nothing, so shares held by read-only servers are placed again "
+                            "on writable servers and the spread is not maximal" % (
+                                src(fg, t.ast.value) if t.ast.value is not None else "None", ", ".join(fg_params)), w)
+
+    # ----------------------------------------------------------------- 10
+    with ctx.rule("C07.10", "R3", "homeless distribution: a homeless share goes to the server component of an item taken "
+                  "from the priority queue (or to a key of the writable servermap that holds it); queue items carry keys "
+                  "of the writable servermap only; priority counters are touched only for such keys; every item taken "
+                  "is put back; the queue is read only after its source was found non-empty", expected=7) as r:
+        dfn = idx.func(HU + ":_distribute_homeless_shares")
+        DM, DH, DP = first_positional_params(dfn)[:3]
+        dcfg = dfn.cfg()
+        dfl = Flow(dfn)
+        gets = [(n, c) for n in dcfg.stmt_nodes() for c in node_calls(n)
+                if call_tail(c) in ("get", "get_nowait") and isinstance(c.func, ast.Attribute)
+                and isinstance(c.func.value, ast.Name) and not c.args]
+        qnames = {c.func.value.id for (_n, c) in gets}
+        if len(qnames) != 1:
+            raise AnchorVanished("_distribute_homeless_shares: one queue that servers are taken from (.get())")
+        Q = qnames.pop()
+        taken = "%s.get()[1]" % Q
+        puts = [(n, c) for n in dcfg.stmt_nodes() for c in node_calls(n)
+                if call_name(c) in (Q + ".put", Q + ".put_nowait") and len(c.args) >= 1]
+
+        def is_put(n):
+            return any(n is p for (p, _c) in puts)
+        # names holding only keys of the writable servermap
+        cand = {DP}
+        for n in dcfg.stmt_nodes():
+            if n.kind == "stmt" and isinstance(n.ast, ast.Assign) and len(n.ast.targets) == 1 \
+                    and isinstance(n.ast.targets[0], ast.Name) and keys_of(dfl, n, n.ast.value, DP):
+                nm_ = n.ast.targets[0].id
+                if not has_adders(dfn, nm_) and len([m for m in dcfg.stmt_nodes() if nm_ in node_stores(m)]) == 1:
+                    cand.add(nm_)
+
+        def over_keys(head, it):
+            return keys_of(dfl, head, it, DP)
+        # (a) queue items
+        PRs = set()
+        initial = []
+        for (n, c) in puts:
+            r.site(dfn, c, "queue item")
+            item = c.args[0]
+            okp = isinstance(item, ast.Tuple) and len(item.elts) == 2
+            comp = item.elts[1] if okp else None
+            how = None
+            if okp:
+                if dfl.origin(n, comp) == taken:
+                    how = "back"
+                else:
+                    found = []
+
+                    def over_pr(head, it, _f=found):
+                        it = unwrap(it)
+                        if isinstance(it, ast.Name) and not keys_of(dfl, head, it, DP):
+                            _f.append(it.id)
+                            return True
+                        return keys_of(dfl, head, it, DP)
+                    if loop_key(dfn, dfl, n, comp, over_pr):
+                        how = "initial"
+                        PRs.update(found)
+                        initial.append(n)
+            r.require(how is not None, dfn, dfn.loc(c), "the queue item %s does not carry (count, server) with the server being "
+                      "a candidate of the priority table or the server just taken from the queue" % src(dfn, item))
+        r.require(bool(initial), dfn, dfn.loc(), "the queue %s is never filled from the candidate servers: %s.get() blocks "
+                  "forever as soon as one homeless share is to be distributed" % (Q, Q))
+        # (b) the priority table: keys are candidate servers only
+        for PR in sorted(PRs):
+            dn, v = dfl.unique_def(initial[0], PR)
+            okc = v is not None and ((isinstance(v, ast.Dict) and not v.keys) or
+                                     (isinstance(v, ast.Call) and call_name(v) in ("dict", "defaultdict", "Counter") and not v.args))
+            if isinstance(v, ast.DictComp) and len(v.generators) == 1 and isinstance(v.key, ast.Name) \
+                    and isinstance(v.generators[0].target, ast.Name) and v.generators[0].target.id == v.key.id:
+                okc = keys_of(dfl, dn, v.generators[0].iter, DP)
+            if isinstance(v, ast.Call) and call_name(v) == "dict.fromkeys" and v.args:
+                okc = keys_of(dfl, dn, v.args[0], DP)
+            if v is not None and not (isinstance(v, ast.Dict) or (isinstance(v, ast.Call) and not v.args)):
+                r.site(dfn, v, "priority entry (initial keys)")
+            r.require(okc, dfn, dfn.loc(v) if v is not None else dfn.loc(),
+                      "the priority table %s does not start empty or with the keys of %s" % (PR, DP))
+            touched = []
+            for n in dcfg.stmt_nodes():
+                for (_k, key, _val) in container_stores(n, PR):
+                    if key is not None:
+                        touched.append((n, key))
+                if n.kind == "stmt" and isinstance(n.ast, ast.AugAssign) and isinstance(n.ast.target, ast.Subscript) \
+                        and isinstance(n.ast.target.value, ast.Name) and n.ast.target.value.id == PR:
+                    touched.append((n, n.ast.target.slice))
+            if not touched and not isinstance(v, ast.DictComp):
+                raise AnchorVanished("_distribute_homeless_shares: stores into the priority table %s" % PR)
+            for (n, key) in touched:
+                r.site(dfn, n.ast, "priority entry")
+                if loop_key(dfn, dfl, n, key, over_keys):
+                    continue
+                kx = norm_plain(key)
+                allowed = cand | {PR}
+                bad = find_path_avoiding(
+                    dcfg, lambda x, _n=n: x is _n,
+                    gate_edge=fact_gate(None, lambda op, l, rr, _k=kx: op == "in" and l == _k and rr in allowed),
+                    kill=lambda x, _k=kx: x.kind == "iter" and _k in node_stores(x))
+                for (t, w) in bad:
+                    r.violation(dfn, dfn.loc(t.ast), "priority entry %s[%s] is touched for a server that was not checked to be a "
+                                "key of %s (a read-only server matched in phase 1 or a writable server without existing "
+                                "shares raises KeyError / becomes a candidate for homeless shares)" % (PR, kx, DP), w)
+        # (c) placements made from the queue
+        dst2 = [(n, key, val) for n in dcfg.stmt_nodes() for (_k, key, val) in container_stores(n, DM)]
+        if not dst2:
+            raise AnchorVanished("_distribute_homeless_shares: stores into %s" % DM)
+        for (n, key, val) in dst2:
+            r.site(dfn, n.ast, "homeless placement server")
+            els = set_elements(val)
+            if not r.require(els is not None and len(els) == 1, dfn, dfn.loc(n.ast),
+                             "a homeless share is mapped to %s, not to a set of one server" % src(dfn, val)):
+                continue
+            x = els[0]
+            okx = dfl.origin(n, x) == taken or loop_key(dfn, dfl, n, x, over_keys) is not None
+            r.require(okx, dfn, dfn.loc(n.ast), "a homeless share is placed on %s, which is neither the server component of the "
+                      "item taken from %s in this iteration nor a key of %s" % (src(dfn, x), Q, DP))
+        # (d) queue discipline
+        allq = cand | PRs
+        for (n, c) in gets:
+            r.site(dfn, c, "queue get")
+            enc = enclosing_for(dfn, n.ast) if n.kind == "stmt" else []
+            if enc:
+                head = iter_node(dcfg, enc[-1])
+                for (s_, w) in find_path_from_to_avoiding(dcfg, lambda x, _n=n: x is _n, is_put, ends=lambda x, _h=head: x is _h):
+                    r.violation(dfn, dfn.loc(n.ast), "the server taken from %s is not put back on every way through the iteration: "
+                                "with more homeless shares than candidate servers the next %s.get() blocks forever" % (Q, Q), w)
+
+            def filled(op, l, rr):
+                return nonempty_fact(op, l, rr, allq) or (op == "false" and l == "%s.empty()" % Q) \
+                    or (op == "truth" and l == "%s.qsize()" % Q)
+            for (t, w) in find_path_avoiding(dcfg, lambda x, _n=n: x is _n, gate_edge=fact_gate(None, filled)):
+                r.violation(dfn, dfn.loc(t.ast), "%s.get() can be reached without any of %s having been found non-empty: with no "
+                            "candidate server the call blocks forever" % (Q, ", ".join(sorted(allq))), w)
+
+    # ----------------------------------------------------------------- 11
+    selm = {}
+    with ctx.rule("C07.11", "R2", "the selector acts on the placement: get_share_placements returns the share_placement "
+                  "result; get_shareholders recomputes it after every wait before _allocation_for reads it; "
+                  "_allocation_for(tracker) returns exactly the shares placed on that tracker's server; every tracker "
+                  "built for a writable server is asked for them unless it already holds exactly those; servers that "
+                  "cannot take the share size are the ones marked read-only; the retry loop is left early only when "
+                  "nothing changed", expected=6) as r:
+        SEL = UP + ":Tahoe2ServerSelector"
+        # (a) get_share_placements
+        gp_ = idx.func(UP + ":PeerSelector.get_share_placements")
+        gpcfg = gp_.cfg()
+        cs = calls_in_func(gp_, "share_placement")
+        if len(cs) != 1:
+            raise AnchorVanished("get_share_placements: share_placement call")
+        cn = Flow(gp_).node_of(cs[0])
+        tgt = None
+        if cn.kind == "stmt" and isinstance(cn.ast, ast.Assign) and len(cn.ast.targets) == 1 and cn.ast.value is cs[0]:
+            tgt = attr_path(cn.ast.targets[0])
+        grets = gpcfg.find(is_return)
+        if not grets:
+            raise AnchorVanished("get_share_placements: return")
+        for o in grets:
+            r.site(gp_, o.ast, "placement returned")
+            v = o.ast.value
+            if v is cs[0]:
+                continue
+            okr = v is not None and tgt is not None and attr_path(v) == tgt
+            if r.require(okr, gp_, gp_.loc(o.ast), "get_share_placements returns %s, not the result of share_placement(..)" % (
+                    src(gp_, v) if v is not None else "None")):
+                for (t, w) in find_path_avoiding(gpcfg, lambda x, _o=o: x is _o, gate_node=lambda x: x is cn,
+                                                 kill=lambda x: x is not cn and tgt in node_stores(x)):
+                    r.violation(gp_, gp_.loc(t.ast), "%s is returned without holding the share_placement result" % tgt, w)
+        # (b) _allocation_for
+        af = idx.func(SEL + "._allocation_for")
+        acfg = af.cfg()
+        afl = Flow(af)
+        TR = first_positional_params(af)[0]
+        aret = returned_name(af)
+        aadds = [(n, val) for n in acfg.stmt_nodes() for (_k, _key, val) in container_stores(n, aret)]
+        if len(aadds) != 1:
+            raise AnchorVanished("_allocation_for: one add into the returned set %s" % aret)
+        an, aval = aadds[0]
+        r.site(af, an.ast, "share asked of a tracker")
+        aloops = enclosing_for(af, an.ast)
+        PL = None
+        okl = False
+        if aloops:
+            lp = aloops[-1]
+            base, view = unwrap_view(lp.iter)
+            if view == "items" and isinstance(lp.target, ast.Tuple) and len(lp.target.elts) == 2 \
+                    and all(isinstance(e, ast.Name) for e in lp.target.elts):
+                kv_, tv_ = [e.id for e in lp.target.elts]
+                ahead = iter_node(acfg, lp)
+                PL = afl.origin(ahead, base)
+                okl = PL.startswith("self.") and "(" not in PL
+        if not okl:
+            raise AnchorVanished("_allocation_for: loop `for share, server in <self.placement>.items()` around the add")
+        r.require(norm_plain(aval) == kv_, af, af.loc(an.ast), "_allocation_for adds %s, not the share number %s of the "
+                  "placement entry" % (src(af, aval), kv_))
+        anorm = FlowNorm(af)
+        sid = "%s.get_serverid()" % TR
+
+        def same_server(op, l, rr):
+            return op == "==" and {l, rr} == {sid, tv_}
+
+        def other_server(op, l, rr):
+            return (op == "!=" and {l, rr} == {sid, tv_}) or (op in ("==", "is") and {l, rr} == {"None", tv_}) \
+                or (op == "false" and l == tv_)
+        for (t, w) in find_path_avoiding(acfg, lambda x: x is an, gate_edge=fact_gate(anorm, same_server),
+                                         kill=lambda x: x is ahead):
+            r.violation(af, af.loc(t.ast), "share %s is requested from a tracker without `%s == %s`: a server is asked for "
+                        "shares the placement gave to another server" % (kv_, sid, tv_), w)
+        w = body_skips(acfg, ahead, lambda x: x is an, gate_edge=fact_gate(anorm, other_server))
+        if w:
+            r.violation(af, af.loc(an.ast), "a share the placement gave to this tracker's server can be left out of the request "
+                        "(it is then never uploaded and the upload is declared unhappy)",
+                        ["L%d %r" % (acfg.nodes[i_].lineno, acfg.nodes[i_]) for i_ in w])
+        for o in acfg.find(is_return):
+            r.require(isinstance(o.ast.value, ast.Name) and o.ast.value.id == aret, af, af.loc(o.ast),
+                      "_allocation_for returns %s, not the collected set" % (src(af, o.ast.value) if o.ast.value is not None else "None"))
+        # (c) get_shareholders: fresh placement, every writable tracker asked
+        gs = idx.func(SEL + ".get_shareholders")
+        gcfg2 = gs.cfg()
+        gsl = Flow(gs)
+        pstores = [n for n in gcfg2.stmt_nodes() if n.kind == "stmt" and isinstance(n.ast, ast.Assign)
+                   and [attr_path(t) for t in n.ast.targets] == [PL]]
+        if not pstores:
+            raise AnchorVanished("get_shareholders: store into %s" % PL)
+        for n in pstores:
+            r.site(gs, n.ast, "placement recomputed")
+            r.require(gsl.origin(n, n.ast.value).endswith("get_share_placements()"), gs, gs.loc(n.ast),
+                      "%s is set to %s, not to the peer selector's get_share_placements()" % (PL, src(gs, n.ast.value)))
+        acalls = [n for n in gcfg2.nodes if calls_at(n, "_allocation_for")]
+        if not acalls:
+            raise AnchorVanished("get_shareholders: _allocation_for call")
+        for (t, w) in find_path_avoiding(gcfg2, lambda x: any(x is y for y in acalls),
+                                         gate_node=lambda x: any(x is y for y in pstores), kill=has_yield):
+            r.violation(gs, gs.loc(t.ast), "_allocation_for reads a placement that was not recomputed since the last wait: servers "
+                        "that failed or became read-only in the meantime keep their shares, which are never re-homed", w)
+        qn = [(n, c) for n in gcfg2.nodes for c in node_calls(n) if call_tail(c) == "query"
+              and isinstance(c.func, ast.Attribute) and isinstance(c.func.value, ast.Name)]
+        if len(qn) != 1:
+            raise AnchorVanished("get_shareholders: one <tracker>.query(..) call")
+        qnode, qc = qn[0]
+        r.site(gs, qc, "allocation query")
+        tv = qc.func.value.id
+        qloops = [l for l in (enclosing_for(gs, qnode.ast) if qnode.kind == "stmt" else [])
+                  if isinstance(l.target, ast.Name) and l.target.id == tv]
+        if not qloops:
+            raise AnchorVanished("get_shareholders: loop over the trackers around the query")
+        ql = qloops[-1]
+        qhead = iter_node(gcfg2, ql)
+        want_arg = "self._allocation_for(%s)" % tv
+        a0 = qc.args[0] if qc.args else None
+        got_arg = gsl.origin(qnode, a0) if a0 is not None else "nothing"
+        r.require(got_arg == want_arg, gs, gs.loc(qc), "the tracker is asked for %s, expected %s" % (got_arg, want_arg))
+        # which component of _create_trackers holds the trackers of writable servers
+        ct = idx.func(SEL + "._create_trackers")
+        ctl = Flow(ct)
+        ctr = [n for n in ct.cfg().find(is_return) if isinstance(n.ast.value, ast.Tuple)
+               and all(isinstance(e, ast.Name) for e in n.ast.value.elts)]
+        if len(ctr) != 1:
+            raise AnchorVanished("_create_trackers returns a tuple of tracker lists")
+        srcs_ = []
+        for e in ctr[0].ast.value.elts:
+            _dn, v = ctl.unique_def(ctr[0], e.id)
+            a_ = v.args[0] if isinstance(v, ast.Call) and len(v.args) == 1 else None
+            srcs_.append(a_.id if isinstance(a_, ast.Name) else None)
+        marked = set()
+        mark_loops = []
+        for l in [x for x in func_own_nodes(ct) if isinstance(x, ast.For)]:
+            if any(isinstance(x, ast.Call) and call_tail(x) == "mark_readonly_peer" for st in l.body for x in ast.walk(st)):
+                it = unwrap(l.iter)
+                if isinstance(it, ast.Name):
+                    marked.add(it.id)
+                    mark_loops.append(l)
+        windex = [i for (i, s_) in enumerate(srcs_) if s_ is not None and s_ not in marked]
+        if None in srcs_ or not windex or not marked:
+            raise AnchorVanished("_create_trackers: tracker lists built from the writable / read-only server collections")
+        selm.update(gs=gs, gsl=gsl, cfg=gcfg2, pstores=pstores, ql=ql, windex=windex, ncomp=len(srcs_), SEL=SEL)
+        it_e, it_at = unwrap(ql.iter), qhead
+        for _ in range(4):
+            if not isinstance(it_e, ast.Name):
+                break
+            dn_, v_ = gsl.unique_def(it_at, it_e.id)
+            if v_ is None or not (isinstance(v_, ast.Name) or (isinstance(v_, ast.BinOp) and isinstance(v_.op, ast.BitOr))
+                                  or (isinstance(v_, ast.Call) and call_tail(v_) in ("union", "set", "list", "tuple", "sorted"))):
+                break
+            it_e, it_at = unwrap(v_), dn_
+        atoms = gsl.union_atoms(it_at, it_e)
+        for i in windex:
+            r.require(any(a.startswith("self._create_trackers(") and a.endswith("[%d]" % i) for a in atoms), gs, gs.loc(ql),
+                      "the allocation loop runs over %s, which does not include the trackers of the writable servers "
+                      "(component %d of _create_trackers)" % (src(gs, ql.iter), i))
+        qargs = {norm_plain(a0)} if a0 is not None else set()
+
+        def may_skip(op, l, rr):
+            if empty_fact(op, l, rr, qargs):
+                return True
+            return op == "==" and any(x in qargs for x in (l, rr)) and any(("%s.buckets" % tv) in (x or "") for x in (l, rr))
+        w = body_skips(gcfg2, qhead, lambda x: x is qnode, gate_edge=fact_gate(None, may_skip))
+        if w:
+            r.violation(gs, gs.loc(qc), "a tracker can be passed over although the shares placed on it differ from the buckets it "
+                        "already has: the shares are never allocated",
+                        ["L%d %r" % (gcfg2.nodes[i_].lineno, gcfg2.nodes[i_]) for i_ in w])
+        # the retry loop is left early only when nothing changed (snapshot comparison), when its own condition fails,
+        # or when a local collection is empty
+        wloops = [x for x in func_own_nodes(gs) if isinstance(x, ast.While)
+                  and any(y is p.ast for p in pstores for st in x.body for y in ast.walk(st))]
+        if len(wloops) != 1:
+            raise AnchorVanished("get_shareholders: the while loop that recomputes the placement")
+        wl_ = wloops[0]
+        r.site(gs, wl_, "placement retry loop")
+        plainN2 = Normaliser(Env(None, depth=0))
+        snaps = set()
+        loop_locals = set()
+        for st in wl_.body:
+            for y in ast.walk(st):
+                if isinstance(y, ast.Assign) and len(y.targets) == 1 and isinstance(y.targets[0], ast.Name):
+                    snaps.add(frozenset([y.targets[0].id, norm_plain(y.value)]))
+                    loop_locals.add(y.targets[0].id)
+        exit_facts = set()
+        for n in gcfg2.nodes:
+            if n.kind == "test" and any(y is n.ast for y in ast.walk(wl_.test)):
+                f = fact_on_edge(plainN2, n, ("F", n.ast))
+                if f:
+                    exit_facts.add(tuple(f))
+
+        def may_leave(op, l, rr):
+            return (op == "==" and frozenset([l, rr]) in snaps) or (op, l, rr) in exit_facts \
+                or empty_fact(op, l, rr, loop_locals)
+
+        def own_breaks(stmts):
+            for st in stmts:
+                if isinstance(st, ast.Break):
+                    yield st
+                elif isinstance(st, (ast.For, ast.While, ast.FunctionDef, ast.AsyncFunctionDef, ast.ClassDef)):
+                    continue
+                else:
+                    for field in ("body", "orelse", "finalbody"):
+                        sub = getattr(st, field, None)
+                        if isinstance(sub, list) and sub and isinstance(sub[0], ast.stmt):
+                            for b_ in own_breaks(sub):
+                                yield b_
+                    for h in getattr(st, "handlers", []) or []:
+                        for b_ in own_breaks(h.body):
+                            yield b_
+        for b_ in own_breaks(wl_.body):
+            bn = [n for n in gcfg2.nodes if n.ast is b_]
+            if not bn:
+                continue
+            for (t, w) in find_path_avoiding(gcfg2, lambda x, _b=bn[0]: x is _b, gate_edge=fact_gate(None, may_leave),
+                                             kill=lambda x: any(x is y for y in pstores)):
+                r.violation(gs, gs.loc(t.ast), "the placement retry loop is left although neither a value saved earlier in the "
+                            "round is unchanged nor the loop's own condition fails: after a round with rejected shares the "
+                            "placement is not recomputed, so the upload is declared unhappy while servers are unused", w)
+        # (d) _create_trackers: who is read-only
+        r.site(ct, None, "read-only classification")
+        cparams = first_positional_params(ct)
+        plainN = Normaliser(Env(None, depth=0))
+        for i in windex:
+            wn = srcs_[i]
+            _dn, wv = ctl.unique_def(ctr[0], wn)
+            okw = False
+            cands_ = None
+            if isinstance(wv, ast.ListComp) and len(wv.generators) == 1 and isinstance(wv.generators[0].target, ast.Name) \
+                    and isinstance(wv.elt, ast.Name) and wv.elt.id == wv.generators[0].target.id:
+                g0 = wv.generators[0]
+                cands_ = norm_plain(unwrap(g0.iter))
+                facts = [plainN.cmp(i_, True) for i_ in g0.ifs]
+                okw = cands_ in cparams and len(facts) == 1 and facts[0][0] == "<=" and facts[0][1] in cparams \
+                    and re.match(r"^\w+\(%s\)$" % re.escape(g0.target.id), facts[0][2] or "") is not None
+            r.require(okw, ct, ct.loc(wv) if wv is not None else ct.loc(),
+                      "the writable servers are not [s for s in <candidates> if <size limit of s> >= <allocated size>]; got %s" % (
+                          src(ct, wv) if wv is not None else wn))
+            if not okw:
+                continue
+            adders = [l for l in func_own_nodes(ct) if isinstance(l, ast.For) and norm_plain(unwrap(l.iter)) == cands_
+                      and isinstance(l.target, ast.Name)
+                      and any(isinstance(x, ast.Call) and call_tail(x) == "add_peer"
+                              and [norm_plain(a) for a in x.args] == ["%s.get_serverid()" % l.target.id]
+                              for st in l.body for x in ast.walk(st))]
+            r.require(bool(adders), ct, ct.loc(), "not every candidate server is made known to the peer selector "
+                      "(add_peer(s.get_serverid()) for s in %s): the placement has no writable server to use" % cands_)
+            for l in mark_loops:
+                b, m = ctl.chain(iter_node(ct.cfg(), l), l.iter)
+                r.require(b == cands_ and m == frozenset([wn]), ct, ct.loc(l),
+                          "the servers marked read-only are %s, expected every candidate that is not writable (%s - %s)" % (
+                              src(ct, l.iter), cands_, wn))
+                lv = l.target.id if isinstance(l.target, ast.Name) else "?"
+                mcs = [x for st in l.body for x in ast.walk(st) if isinstance(x, ast.Call) and call_tail(x) == "mark_readonly_peer"]
+                r.require(all([norm_plain(a) for a in c_.args] == ["%s.get_serverid()" % lv] for c_ in mcs), ct, ct.loc(l),
+                          "mark_readonly_peer is not given the id of the server being classified")
+
+    # ----------------------------------------------------------------- 12
+    with ctx.rule("C07.12", "R2", "a server that rejected its allocation leaves the next placement: the function the "
+                  "allocation loop runs for a tracker whose answer showed no progress (it takes the tracker off the list "
+                  "of writable trackers) also tells the peer selector (mark_readonly_peer / mark_bad_peer), or "
+                  "_buckets_allocated does so on every way that does not report progress - otherwise the next "
+                  "get_share_placements() has the same inputs and returns the same placement", expected=1) as r:
+        if not selm:
+            raise AnchorVanished("the allocation loop of get_shareholders was not identified (see C07.11)")
+        gs, ql, windex, SEL = selm["gs"], selm["ql"], selm["windex"], selm["SEL"]
+        # names of the writable tracker lists in get_shareholders
+        wnames = set()
+        for x in func_own_nodes(gs):
+            if isinstance(x, ast.Assign) and isinstance(x.value, ast.Call) and call_tail(x.value) == "_create_trackers" \
+                    and len(x.targets) == 1 and isinstance(x.targets[0], ast.Tuple):
+                for i in windex:
+                    if i < len(x.targets[0].elts) and isinstance(x.targets[0].elts[i], ast.Name):
+                        wnames.add(x.targets[0].elts[i].id)
+        if not wnames:
+            raise AnchorVanished("get_shareholders: writable tracker list unpacked from _create_trackers")
+        used_in_loop = {x.id for st in ql.body for x in ast.walk(st) if isinstance(x, ast.Name)}
+        demoters = []
+        for (nm_, nf) in sorted(gs.nested.items()):
+            if nm_ not in used_in_loop or isinstance(nf.node, ast.Lambda):
+                continue
+            if any(isinstance(x, ast.Call) and isinstance(x.func, ast.Attribute) and x.func.attr in ("remove", "discard", "pop")
+                   and isinstance(x.func.value, ast.Name) and x.func.value.id in wnames for x in func_own_nodes(nf)):
+                demoters.append(nf)
+        if not demoters:
+            raise AnchorVanished("get_shareholders: function of the allocation loop that takes a tracker off %s" % sorted(wnames))
+
+        def tells_selector(n, _lab=None):
+            return any(call_tail(c) in ("mark_readonly_peer", "mark_bad_peer") for c in node_calls(n))
+        # (B) _buckets_allocated marks the server on every way that does not report progress
+        ba = idx.func(SEL + "._buckets_allocated")
+        bacfg = ba.cfg()
+        prog = {o.ast.value.id for o in bacfg.find(is_return) if isinstance(o.ast.value, ast.Name)}
+
+        def progress_or_told(n, lab):
+            if tells_selector(n):
+                return True
+            f = fact_on_edge(Normaliser(Env(None, depth=0)), n, lab)
+            return bool(f) and f[0] == "truth" and f[1] in prog
+        b_bad = find_path_avoiding(bacfg, is_return, gate_edge=progress_or_told)
+        for nf in demoters:
+            r.site(nf, None, "writable tracker demoted")
+            ncfg = nf.cfg()
+            a_bad = find_path_avoiding(ncfg, lambda x: x.kind == "exit", gate_edge=tells_selector)
+            if a_bad and b_bad:
+                r.violation(nf, nf.loc(), "%s takes the tracker off %s but the peer selector is not told (no mark_readonly_peer / "
+                            "mark_bad_peer here, and _buckets_allocated returns without it when nothing was allocated): the "
+                            "next get_share_placements() gives the rejected shares to the same server again, unused servers "
+                            "are never asked, and the upload is declared unhappy although a happy layout was reachable" % (
+                                nf.name, "/".join(sorted(wnames))), b_bad[0][1])
+
+    # ----------------------------------------------------------------- 13
+    with ctx.rule("C07.13", "R2", "the placement sees the existing shares: every tracker of a read-only server is asked "
+                  "about its shares, the answer is handled by a method that records each share number with "
+                  "add_peer_with_share(<server id>, share), the Deferred is collected and the collection is awaited "
+                  "before the first get_share_placements()", expected=3) as r:
+        if not selm:
+            raise AnchorVanished("the allocation loop of get_shareholders was not identified (see C07.11)")
+        gs, gsl, gcfg2, pstores, windex, SEL = (selm[k] for k in ("gs", "gsl", "cfg", "pstores", "windex", "SEL"))
+        ro_index = [i for i in range(selm["ncomp"]) if i not in windex]
+        asks = [(n, c) for n in gcfg2.stmt_nodes() for c in node_calls(n) if call_tail(c) == "ask_about_existing_shares"
+                and isinstance(c.func, ast.Attribute) and isinstance(c.func.value, ast.Name)]
+        if not asks:
+            raise AnchorVanished("get_shareholders: <tracker>.ask_about_existing_shares()")
+        covered = set()
+        appends = []
+        lists = set()
+        for (n, c) in asks:
+            tv = c.func.value.id
+            loops = [l for l in (enclosing_for(gs, n.ast) if n.kind == "stmt" else []) if isinstance(l.target, ast.Name) and l.target.id == tv]
+            if not loops:
+                r.violation(gs, gs.loc(c), "existing shares are asked of %s outside a loop over the trackers" % tv)
+                continue
+            lp = loops[-1]
+            head = iter_node(gcfg2, lp)
+            comp = gsl.origin(head, unwrap(lp.iter))
+            is_ro = any(comp.startswith("self._create_trackers(") and comp.endswith("[%d]" % i) for i in ro_index)
+            if not is_ro:
+                continue          # existing shares of writable servers only save transfers; the spread does not need them
+            covered.add(comp)
+            r.site(gs, c, "existing-share query of a read-only server")
+            dname = n.ast.targets[0].id if isinstance(n.ast, ast.Assign) and len(n.ast.targets) == 1 \
+                and isinstance(n.ast.targets[0], ast.Name) else None
+            if not r.require(dname is not None, gs, gs.loc(c), "the answer about existing shares is not kept in a Deferred variable"):
+                continue
+            in_loop = [x for st in lp.body for x in ast.walk(st)]
+            regs = [x for x in in_loop if isinstance(x, ast.Call) and isinstance(x.func, ast.Attribute)
+                    and x.func.attr in ("addCallback", "addBoth", "addCallbacks") and attr_path(x.func.value) == dname and x.args]
+            recorders = []
+            for x in regs:
+                t = x.args[0]
+                tp = attr_path(t) or ""
+                if not tp.startswith("self.") or tp.count(".") != 1:
+                    continue
+                try:
+                    hm = idx.func("%s.%s" % (SEL, tp.split(".")[1]))
+                except AnchorVanished:
+                    continue
+                if [norm_plain(a) for a in x.args[1:2]] != [tv]:
+                    continue
+                ok_h = handler_records_shares(hm)
+                if ok_h is True:
+                    recorders.append((x, hm))
+                elif ok_h:
+                    r.violation(hm, hm.loc(), ok_h)
+                    recorders.append((x, hm))
+            r.require(bool(recorders), gs, gs.loc(c), "no callback on %s (given the tracker) records the shares the read-only server "
+                      "holds with peer_selector.add_peer_with_share: the read-only phase of the placement has nothing to match, "
+                      "the shares are uploaded again to writable servers and the spread is lower" % dname)
+            for (x, hm) in recorders[:1]:
+                r.site(hm, None, "existing-share handler")
+            apps = [m for m in gcfg2.stmt_nodes() for c2 in node_calls(m) if call_tail(c2) in ("append", "add")
+                    and isinstance(c2.func.value, ast.Name) and [norm_plain(a) for a in c2.args] == [dname]
+                    and m.kind == "stmt" and lp in enclosing_for(gs, m.ast)]
+            if r.require(bool(apps), gs, gs.loc(c), "the Deferred %s is not collected, so nothing waits for the answer before the "
+                         "placement is computed" % dname):
+                for (s_, w) in find_path_from_to_avoiding(gcfg2, lambda x, _n=n: x is _n, lambda x: any(x is a_ for a_ in apps),
+                                                         ends=lambda x, _h=head: x is _h):
+                    r.violation(gs, gs.loc(n.ast), "the Deferred %s can be left out of the collection that is awaited" % dname, w)
+                appends.extend(apps)
+                for m in apps:
+                    for c2 in node_calls(m):
+                        if call_tail(c2) in ("append", "add") and isinstance(c2.func.value, ast.Name):
+                            lists.add(c2.func.value.id)
+        r.require(bool(covered), gs, gs.loc(), "the trackers of read-only servers (component %s of _create_trackers) are never asked "
+                  "about existing shares" % ro_index)
+        waits = [n for n in gcfg2.stmt_nodes() if has_yield(n) and any(
+            isinstance(x, ast.Call) and call_tail(x) in ("DeferredList", "gatherResults") and x.args
+            and norm_plain(unwrap(x.args[0])) in lists for e in node_exprs(n) for x in own_nodes(e))]
+        r.site(gs, waits[0].ast if waits else None, "wait for the answers")
+        if r.require(bool(waits), gs, gs.loc(), "the collected answers about existing shares (%s) are never awaited" % sorted(lists)):
+            for (t, w) in find_path_avoiding(gcfg2, lambda x: any(x is p for p in pstores),
+                                             gate_node=lambda x: any(x is y for y in waits),
+                                             kill=lambda x: any(x is a_ for a_ in appends)):
+                r.violation(gs, gs.loc(t.ast), "the placement is computed before the answers about existing shares were awaited", w)
 
 
 def reach_from_within(cfg, a, b, head) -> bool:
